@@ -217,9 +217,10 @@ example : ∃ fuel₀, ∀ fuel, fuel₀ ≤ fuel →
     an empty stack): if the C execution of the body on the arguments `ρ` reaches `return` with value `v`
     within some fuel, without undefined behaviour, then the emitted IL, run on representations of `ρ`,
     returns a representation of `v` for every sufficiently large fuel — it does not get stuck, trap,
-    touch memory outside its own slots, or produce output. -/
+    touch memory outside its own slots, or produce output.  (`hpw`: the function called with a list of
+    integers has no array parameter — see "Read-only array parameters" below.) -/
 theorem lower2_correct_in (cs : Bool) (startid : Nat) (f : CSem2.Func) (ρ : List Int) (v : Int)
-    (hwt : CSem2.WT f) (henv : EnvOK cs f.params ρ)
+    (hwt : CSem2.WT f) (hpw : f.pwin = []) (henv : EnvOK cs f.params ρ)
     (hsmall : f.params.length + f.locals.length ≤ 1000000)
     (cfuel : Nat) (hev : CSem2.runC cs cfuel f ρ = some v) (p : Prog) (ext : Ext)
     (hfun : p.funcs[f.name]? = some (FuncInfo.of (Lower2.emitFunc cs startid f)))
@@ -231,31 +232,31 @@ theorem lower2_correct_in (cs : Bool) (startid : Nat) (f : CSem2.Func) (ρ : Lis
     split at hev
     · rename_i w h; cases hev; exact h
     · cases hev
-  exact LowerMach2.lower2_correct_prog cs startid f ρ v hwt henv hsmall cfuel hex p ext hfun hstack hsp
+  exact LowerMach2.lower2_correct_prog cs startid f ρ v hwt hpw henv hsmall cfuel hex p ext hfun hstack hsp
 
 /-- **Semantic preservation for 𝔽₂.**  `cs`: signedness of plain `char` on the target; `startid`:
     value of `mkblock`'s counter before the function; `cfuel`: fuel of the C execution. -/
 theorem lower2_correct (cs : Bool) (startid : Nat) (f : CSem2.Func) (ρ : List Int) (v : Int)
-    (ext : Ext) (hwt : CSem2.WT f) (henv : EnvOK cs f.params ρ)
+    (ext : Ext) (hwt : CSem2.WT f) (hpw : f.pwin = []) (henv : EnvOK cs f.params ρ)
     (hsmall : f.params.length + f.locals.length ≤ 1000000)
     (cfuel : Nat) (hev : CSem2.runC cs cfuel f ρ = some v) :
     ∃ fuel₀ r, RetRep f.ret v r ∧ ∀ fuel, fuel₀ ≤ fuel →
       runFunc (prog (Lower2.emitFunc cs startid f)) ext f.name (argsOf f.params ρ) fuel =
         ⟨#[], .ret (.scalar r)⟩ := by
-  refine lower2_correct_in cs startid f ρ v hwt henv hsmall cfuel hev _ ext
+  refine lower2_correct_in cs startid f ρ v hwt hpw henv hsmall cfuel hev _ ext
     (prog_funcs (Lower2.emitFunc cs startid f)) ?_ ?_
   · rw [prog_initMem]
   · rw [prog_initMem]
 
 /-- `lower2_correct` for functions returning `int`, `unsigned`, `long`, …: the outcome is an equation. -/
 theorem lower2_correct_exact (cs : Bool) (startid : Nat) (f : CSem2.Func) (ρ : List Int) (v : Int)
-    (ext : Ext) (hwt : CSem2.WT f) (henv : EnvOK cs f.params ρ)
+    (ext : Ext) (hwt : CSem2.WT f) (hpw : f.pwin = []) (henv : EnvOK cs f.params ρ)
     (hsmall : f.params.length + f.locals.length ≤ 1000000) (hret : 4 ≤ f.ret.size)
     (cfuel : Nat) (hev : CSem2.runC cs cfuel f ρ = some v) :
     ∃ fuel₀, ∀ fuel, fuel₀ ≤ fuel →
       runFunc (prog (Lower2.emitFunc cs startid f)) ext f.name (argsOf f.params ρ) fuel =
         ⟨#[], .ret (.scalar (argOf f.ret v).2)⟩ := by
-  obtain ⟨n, r, hr, h⟩ := lower2_correct cs startid f ρ v ext hwt henv hsmall cfuel hev
+  obtain ⟨n, r, hr, h⟩ := lower2_correct cs startid f ρ v ext hwt hpw henv hsmall cfuel hev
   exact ⟨n, fun fuel hf => by rw [h fuel hf, retRep_exact hret hr]⟩
 
 /-- Stated, not proved (and not claimed): the emitted module passes the IL validator of C03 for every
@@ -283,10 +284,12 @@ abbrev emitProg (cs : Bool) : Nat → List CSem2.Func → List Qbe.Func := Lower
     of the calls — the IL stack (64 MiB, 64 bytes per activation and at most 32 per variable) must have room
     for `cfuel + 1` activations (`hroom`).  If the C execution of `entry(ρ)` returns `v` without undefined
     behaviour, the IL run of `entry` on representations of `ρ` returns a representation of `v` for every
-    sufficiently large fuel: it does not get stuck, trap, overflow the stack or produce output. -/
+    sufficiently large fuel: it does not get stuck, trap, overflow the stack or produce output.  (`hpw`: the
+    ENTRY function has no array parameter; the other functions of `P` may have, and receive local arrays of
+    their callers.) -/
 theorem lower3_correct_in (cs : Bool) (P : CSem3.Prog) (entry : String) (f : CSem2.Func) (ρ : List Int)
     (v : Int) (hwt : CSem3.wtP P = true) (hlk : CSem3.lookup P entry = some f)
-    (henv : EnvOK cs f.params ρ) (K : Nat) (hK : ∀ g ∈ P, g.params.length + g.locals.length + g.extra ≤ K)
+    (hpw : f.pwin = []) (henv : EnvOK cs f.params ρ) (K : Nat) (hK : ∀ g ∈ P, g.params.length + g.locals.length + g.extra ≤ K)
     (cfuel : Nat) (hroom : (cfuel + 1) * (64 + 32 * K) + 64 ≤ 67108864)
     (hev : CSem3.runP cs cfuel P entry ρ = some v) (p : Prog) (ext : Ext)
     (hfuncs : ∀ fn g, CSem3.lookup P fn = some g →
@@ -317,8 +320,8 @@ theorem lower3_correct_in (cs : Bool) (P : CSem3.Prog) (entry : String) (f : CSe
   obtain ⟨sid, hfun⟩ := hfuncs entry f hlk
   obtain ⟨hwf, hcalls, hKf⟩ := hall entry f hlk
   rw [← hname] at hfun ⊢
-  refine LowerMach2.run_entry cs sid f ρ v hwf henv P p ext K cfuel hfuncs hall
-    (LowerMach2.frag_of_callsOK _ _ _ hcalls (LowerMach2.wt_arrsOK hwf)) hKf hfun hstack hsp ?_ cfuel (Or.inr (Nat.le_refl _)) hex
+  refine LowerMach2.run_entry cs sid f ρ v hwf hpw henv P p ext K cfuel hfuncs hall
+    (LowerMach2.frag_of_callsOK _ _ _ hcalls (LowerMach2.wt_arrsOK hwf) (LowerMach2.wt_ptrsOK hwf)) hKf hfun hstack hsp ?_ cfuel (Or.inr (Nat.le_refl _)) hex
   have h1 : (cfuel + 1) * (K + 1) ≤ (cfuel + 1) * (64 + 32 * K) := Nat.mul_le_mul_left _ (by omega)
   constructor
   · rw [hsp, stackTop_val, stackLimit_val]; omega
@@ -330,13 +333,13 @@ theorem lower3_correct_in (cs : Bool) (P : CSem3.Prog) (entry : String) (f : CSe
 /-- **Semantic preservation for programs**: the IL module consisting of all emitted functions of `P`. -/
 theorem lower3_correct (cs : Bool) (startid : Nat) (P : CSem3.Prog) (entry : String) (f : CSem2.Func)
     (ρ : List Int) (v : Int) (ext : Ext) (hwt : CSem3.wtP P = true) (hlk : CSem3.lookup P entry = some f)
-    (henv : EnvOK cs f.params ρ) (K : Nat) (hK : ∀ g ∈ P, g.params.length + g.locals.length + g.extra ≤ K)
+    (hpw : f.pwin = []) (henv : EnvOK cs f.params ρ) (K : Nat) (hK : ∀ g ∈ P, g.params.length + g.locals.length + g.extra ≤ K)
     (cfuel : Nat) (hroom : (cfuel + 1) * (64 + 32 * K) + 64 ≤ 67108864)
     (hev : CSem3.runP cs cfuel P entry ρ = some v) :
     ∃ fuel₀ r, RetRep f.ret v r ∧ ∀ fuel, fuel₀ ≤ fuel →
       runFunc (Prog.ofModule ⟨((emitProg cs startid P).map Def.func).toArray⟩) ext entry
         (argsOf f.params ρ) fuel = ⟨#[], .ret (.scalar r)⟩ := by
-  refine lower3_correct_in cs P entry f ρ v hwt hlk henv K hK cfuel hroom hev _ ext
+  refine lower3_correct_in cs P entry f ρ v hwt hlk hpw henv K hK cfuel hroom hev _ ext
     (fun fn g hl => LowerMach2.ofModule_lookup cs startid P fn g hl) ?_ ?_
   · rw [LowerMach2.ofModule_initMem]
   · rw [LowerMach2.ofModule_initMem]
@@ -344,14 +347,14 @@ theorem lower3_correct (cs : Bool) (startid : Nat) (P : CSem3.Prog) (entry : Str
 /-- `lower3_correct` for entry functions returning `int`, `unsigned`, `long`, …: the outcome is an equation. -/
 theorem lower3_correct_exact (cs : Bool) (startid : Nat) (P : CSem3.Prog) (entry : String) (f : CSem2.Func)
     (ρ : List Int) (v : Int) (ext : Ext) (hwt : CSem3.wtP P = true) (hlk : CSem3.lookup P entry = some f)
-    (henv : EnvOK cs f.params ρ) (K : Nat) (hK : ∀ g ∈ P, g.params.length + g.locals.length + g.extra ≤ K)
+    (hpw : f.pwin = []) (henv : EnvOK cs f.params ρ) (K : Nat) (hK : ∀ g ∈ P, g.params.length + g.locals.length + g.extra ≤ K)
     (hret : 4 ≤ f.ret.size)
     (cfuel : Nat) (hroom : (cfuel + 1) * (64 + 32 * K) + 64 ≤ 67108864)
     (hev : CSem3.runP cs cfuel P entry ρ = some v) :
     ∃ fuel₀, ∀ fuel, fuel₀ ≤ fuel →
       runFunc (Prog.ofModule ⟨((emitProg cs startid P).map Def.func).toArray⟩) ext entry
         (argsOf f.params ρ) fuel = ⟨#[], .ret (.scalar (argOf f.ret v).2)⟩ := by
-  obtain ⟨n, r, hr, h⟩ := lower3_correct cs startid P entry f ρ v ext hwt hlk henv K hK cfuel hroom hev
+  obtain ⟨n, r, hr, h⟩ := lower3_correct cs startid P entry f ρ v ext hwt hlk hpw henv K hK cfuel hroom hev
   exact ⟨n, fun fuel hf => by rw [h fuel hf, retRep_exact hret hr]⟩
 
 /-- `short g(int a) { return a + 1; }` -/
@@ -378,7 +381,7 @@ example : ∃ fuel₀, ∀ fuel, fuel₀ ≤ fuel →
       (argsOf exH.params [3]) fuel = ⟨#[], .ret (.scalar ⟨.w, 22⟩)⟩ := by
   have hval : (argOf exH.ret 22).2 = ⟨.w, 22⟩ := by decide
   rw [← hval]
-  exact lower3_correct_exact true 0 exProg "h" exH [3] 22 noExt (by decide) rfl
+  exact lower3_correct_exact true 0 exProg "h" exH [3] 22 noExt (by decide) rfl rfl
     ⟨rfl, by
       intro i t v ht hv
       match i, ht, hv with
@@ -478,7 +481,7 @@ example : ∃ fuel₀, ∀ fuel, fuel₀ ≤ fuel →
       ⟨#[], .ret (.scalar ⟨.w, 23⟩)⟩ := by
   have hval : (argOf ex9.ret 23).2 = ⟨.w, 23⟩ := by decide
   rw [← hval]
-  exact lower2_correct_exact true 0 ex9 [-2, 7] 23 noExt (by decide)
+  exact lower2_correct_exact true 0 ex9 [-2, 7] 23 noExt (by decide) rfl
     ⟨rfl, by
       intro i t v ht hv
       match i, ht, hv with
@@ -522,7 +525,7 @@ example : ∃ fuel₀, ∀ fuel, fuel₀ ≤ fuel →
       ⟨#[], .ret (.scalar ⟨.w, 26⟩)⟩ := by
   have hval : (argOf ex7.ret 26).2 = ⟨.w, 26⟩ := by decide
   rw [← hval]
-  exact lower2_correct_exact true 0 ex7 [20] 26 noExt (by decide)
+  exact lower2_correct_exact true 0 ex7 [20] 26 noExt (by decide) rfl
     ⟨rfl, by
       intro i t v ht hv
       match i, ht, hv with
@@ -535,7 +538,7 @@ example : ∃ fuel₀, ∀ fuel, fuel₀ ≤ fuel →
       ⟨#[], .ret (.scalar ⟨.w, 3⟩)⟩ := by
   have hval : (argOf ex6.ret 3).2 = ⟨.w, 3⟩ := by decide
   rw [← hval]
-  exact lower2_correct_exact true 0 ex6 [0] 3 noExt (by decide)
+  exact lower2_correct_exact true 0 ex6 [0] 3 noExt (by decide) rfl
     ⟨rfl, by
       intro i t v ht hv
       match i, ht, hv with
@@ -548,7 +551,7 @@ example : ∃ fuel₀, ∀ fuel, fuel₀ ≤ fuel →
       ⟨#[], .ret (.scalar ⟨.w, 603⟩)⟩ := by
   have hval : (argOf ex4.ret 603).2 = ⟨.w, 603⟩ := by decide
   rw [← hval]
-  exact lower2_correct_exact true 0 ex4 [100, 200] 603 noExt (by decide)
+  exact lower2_correct_exact true 0 ex4 [100, 200] 603 noExt (by decide) rfl
     ⟨rfl, by
       intro i t v ht hv
       match i, ht, hv with
@@ -599,7 +602,7 @@ example : ∃ fuel₀, ∀ fuel, fuel₀ ≤ fuel →
       ⟨#[], .ret (.scalar ⟨.w, 28⟩)⟩ := by
   have hval : (argOf ex10.ret 28).2 = ⟨.w, 28⟩ := by decide
   rw [← hval]
-  exact lower2_correct_exact true 0 ex10 [5] 28 noExt (by decide)
+  exact lower2_correct_exact true 0 ex10 [5] 28 noExt (by decide) rfl
     ⟨rfl, by
       intro i t v ht hv
       match i, ht, hv with
@@ -631,7 +634,7 @@ example : ∃ fuel₀, ∀ fuel, fuel₀ ≤ fuel →
       (argsOf exFact.params [5]) fuel = ⟨#[], .ret (.scalar ⟨.w, 120⟩)⟩ := by
   have hval : (argOf exFact.ret 120).2 = ⟨.w, 120⟩ := by decide
   rw [← hval]
-  exact lower3_correct_exact true 0 [exFact] "fact" exFact [5] 120 noExt (by decide) rfl
+  exact lower3_correct_exact true 0 [exFact] "fact" exFact [5] 120 noExt (by decide) rfl rfl
     ⟨rfl, by
       intro i t v ht hv
       match i, ht, hv with
@@ -655,5 +658,66 @@ example : CSem2.WT ex11 := by decide
 /-- 7·2 + a[1] -/
 example : CSem2.runC true 30 ex11 [7] = some 16 := by decide
 example : CSem2.runC true 30 ex11 [4] = some 12 := by decide
+
+/-! ## Read-only array parameters
+
+  `T f(const int p[3], …)`: a parameter declared as an array is a pointer (6.7.6.3p7); the fragment has
+  such parameters as the FIRST parameters of a function (`Func.pwin`), read with `x = p[i];`
+  (`CSem2.Stmt.pload`) and never written, and calls that pass LOCAL ARRAYS of the caller to them
+  (`CSem2.Stmt.callp`).  The C semantics gives the callee a copy of the elements in further cells of its store
+  (`CSem2.windows`: exact, since the callee only reads and the caller is suspended meanwhile; an index outside
+  the declared length, or an element without value, is undefined); the lowering passes the address in the
+  array's slot as an `l` argument, spills it like every parameter, and `p[i]` loads the pointer, adds
+  `(unsigned long)i * sizeof *p` and loads from the CALLER's allocation.  `lower3_correct*` cover programs
+  with such functions; the entry function itself has no array parameter (`hpw`: a list of integers cannot
+  supply one). -/
+
+/-- `int at(const int p[3], int i) { int x; x = p[i]; return x; }` -/
+def exAt : CSem2.Func :=
+  { name := "at", ret := .int, params := [.ulong, .int], locals := [.int], pwin := [(.int, 3)],
+    body := .seq (.decl 2 .int none) (.seq (.pload 2 .int 0 .int 3 3 (.param .int 1)) (.ret (.param .int 2))) }
+/-- `int use(int k) { int a[3]; int r; int t; a[0] = 10; a[1] = 20; a[2] = k; r = at(a, 2); t = at(a, 0);
+      return r + t; }` -/
+def exUse : CSem2.Func :=
+  { name := "use", ret := .int, params := [.int], locals := [.int, .int, .int], lcnts := [3, 1, 1],
+    body :=
+      .seq (.adecl 1 .int 3 4)
+      (.seq (.decl 2 .int none)
+      (.seq (.decl 3 .int none)
+      (.seq (.astore 1 .int 3 4 (.const .int 0) (.const .int 10))
+      (.seq (.astore 1 .int 3 4 (.const .int 1) (.const .int 20))
+      (.seq (.astore 1 .int 3 4 (.const .int 2) (.param .int 0))
+      (.seq (.callp (some (2, .int)) .int "at" [(1, .int, 3, 4)] [.const .int 2])
+      (.seq (.callp (some (3, .int)) .int "at" [(1, .int, 3, 4)] [.const .int 0])
+            (.ret (.bin .add .int (.param .int 2) (.param .int 3)))))))))) }
+def exArrProg : CSem3.Prog := [exAt, exUse]
+example : CSem3.wtP exArrProg = true := by decide
+/-- a[2] + a[0] -/
+example : CSem3.runP true 40 exArrProg "use" [7] = some 17 := by decide
+/-- `p[3]` is outside the declared length of the parameter -/
+example : CSem3.runP true 40
+    [exAt, { exUse with body := .seq (.adecl 1 .int 3 4) (.seq (.decl 2 .int none)
+      (.seq (.astore 1 .int 3 4 (.const .int 0) (.const .int 10))
+      (.seq (.callp (some (2, .int)) .int "at" [(1, .int, 3, 4)] [.const .int 3]) (.ret (.param .int 2))))) }]
+    "use" [7] = none := by decide
+/-- `a[1]` has no value when `at` reads it -/
+example : CSem3.runP true 40
+    [exAt, { exUse with body := .seq (.adecl 1 .int 3 4) (.seq (.decl 2 .int none)
+      (.seq (.astore 1 .int 3 4 (.const .int 0) (.const .int 10))
+      (.seq (.callp (some (2, .int)) .int "at" [(1, .int, 3, 4)] [.const .int 1]) (.ret (.param .int 2))))) }]
+    "use" [7] = none := by decide
+
+/-- the theorem applied: the module of `at` and `use`, run from `use(7)`, returns 17 -/
+example : ∃ fuel₀, ∀ fuel, fuel₀ ≤ fuel →
+    runFunc (Prog.ofModule ⟨((emitProg true 0 exArrProg).map Def.func).toArray⟩) noExt "use"
+      (argsOf exUse.params [7]) fuel = ⟨#[], .ret (.scalar ⟨.w, 17⟩)⟩ := by
+  have hval : (argOf exUse.ret 17).2 = ⟨.w, 17⟩ := by decide
+  rw [← hval]
+  exact lower3_correct_exact true 0 exArrProg "use" exUse [7] 17 noExt (by decide) rfl rfl
+    ⟨rfl, by
+      intro i t v ht hv
+      match i, ht, hv with
+      | 0, ht, hv => cases ht; cases hv; decide⟩
+    6 (by decide) (by decide) 40 (by decide) (by decide)
 
 end CprocVerif.C01
